@@ -33,6 +33,9 @@
 //	for i := range x, for i, v := range x, for _, v := range x (x a []byte variable) → the counted loop it abbreviates
 //	                            (i from 0 below len(x), v := x[i] at the head of the body)
 //	bits.LeadingZeros64/32/8(x) → BitVec.clz (zero-extended to int)
+//	copy(dst[a:], src), copy(dst, src) (dst a []byte / [n]byte variable) → goCopyAt (defined in the generated file)
+//	u[i], u[j] = e1, e2       → all right-hand sides into temporaries, then the stores left to right
+//	var u [n]byte             → List.replicate n 0
 //	"externs" (targets.json)  → a function of the package that is NOT translated (unsafe pointer code): its Lean
 //	                            definition is given in targets.json (TRUSTED, printed in the generated file under the
 //	                            word EXTERN) together with the Go source text it was written for; a change of that
@@ -101,6 +104,8 @@ type tr struct {
 	helpers []string
 	selTy   map[string]ty
 	swCount int
+	tmpCount int
+	useCopy bool
 	rngCount int
 	cnt     map[string]int // helper definitions (switch, loop) are numbered per translated function / segment
 	indent  int
@@ -574,6 +579,16 @@ func (t *tr) assigned(stmts []ast.Stmt) []string {
 				}
 			case *ast.IncDecStmt:
 				add(x.X)
+			case *ast.ExprStmt:
+				if c, ok := x.X.(*ast.CallExpr); ok {
+					if id, ok := c.Fun.(*ast.Ident); ok && id.Name == "copy" && len(c.Args) == 2 {
+						d := c.Args[0]
+						if se, ok := d.(*ast.SliceExpr); ok {
+							d = se.X
+						}
+						add(d)
+					}
+				}
 			case *ast.DeclStmt:
 				if gd, ok := x.Decl.(*ast.GenDecl); ok {
 					for _, sp := range gd.Specs {
@@ -638,6 +653,9 @@ func (t *tr) zero(T types.Type, n ast.Node) string {
 	case "bool":
 		return "false"
 	case "bytes":
+		if a, ok := T.Underlying().(*types.Array); ok {
+			return fmt.Sprintf("(List.replicate %d 0#8)", a.Len())
+		}
 		return "[]"
 	}
 	return t.fail(n, "zero value")
@@ -737,6 +755,28 @@ func (t *tr) stmts(list []ast.Stmt, tail func() string, results []string) string
 		out += t.stmts(el, func() string { return tp }, results)
 		t.indent -= 2
 		return out + cont()
+	case *ast.ExprStmt:
+		// copy(dst[a:], src) / copy(dst, src) on byte slices, dst a variable
+		if c, ok := x.X.(*ast.CallExpr); ok {
+			if id, ok := c.Fun.(*ast.Ident); ok && id.Name == "copy" && len(c.Args) == 2 {
+				dst, off := c.Args[0], "0"
+				if se, ok := dst.(*ast.SliceExpr); ok && se.High == nil && !se.Slice3 {
+					dst = se.X
+					if se.Low != nil {
+						off = t.natOf(se.Low)
+					}
+				}
+				di, ok1 := dst.(*ast.Ident)
+				dy, ok2 := t.typeOfExpr(dst)
+				sy, ok3 := t.typeOfExpr(c.Args[1])
+				if ok1 && ok2 && ok3 && dy.kind == "bytes" && sy.kind == "bytes" {
+					t.useCopy = true
+					t.notes = append(t.notes, fmt.Sprintf("%s: %s totalised (goCopyAt: Go panics when the offset exceeds len(dst))", t.curFn, src(t.fset, c)))
+					return fmt.Sprintf("%slet %s := goCopyAt %s %s %s\n", t.pad(), leanName(di.Name), leanName(di.Name), off, t.expr(c.Args[1])) + cont()
+				}
+			}
+		}
+		return t.pad() + t.fail(s, "expression statement %s", src(t.fset, x)) + "\n" + cont()
 	case *ast.SwitchStmt:
 		return t.switchStmt(x) + cont()
 	case *ast.ForStmt:
@@ -795,6 +835,44 @@ func (t *tr) assign(x *ast.AssignStmt) string {
 			return p + t.fail(x, "op-assign type") + "\n"
 		}
 		return fmt.Sprintf("%slet %s := %s\n", p, leanName(id.Name), t.opAssign(x, leanName(id.Name), rhs, y))
+	}
+	// u[0], u[1] = e0, e1 : all right-hand sides first (Go's order of evaluation), then the stores left to right
+	if len(x.Lhs) == len(x.Rhs) && x.Tok == token.ASSIGN {
+		anyIdx := false
+		for _, l := range x.Lhs {
+			if _, ok := l.(*ast.IndexExpr); ok {
+				anyIdx = true
+			}
+		}
+		if anyIdx {
+			t.tmpCount++
+			out := ""
+			var tmps []string
+			for i, r := range x.Rhs {
+				tmp := fmt.Sprintf("asg%d_%d", t.tmpCount, i)
+				tmps = append(tmps, tmp)
+				out += fmt.Sprintf("%slet %s := %s\n", p, tmp, t.expr(r))
+			}
+			for i, l := range x.Lhs {
+				switch lx := l.(type) {
+				case *ast.IndexExpr:
+					id, ok := lx.X.(*ast.Ident)
+					y, ok2 := t.typeOfExpr(lx.X)
+					if !ok || !ok2 || y.kind != "bytes" {
+						return p + t.fail(x, "tuple assignment target") + "\n"
+					}
+					t.notes = append(t.notes, fmt.Sprintf("%s: store %s totalised (List.set)", t.curFn, src(t.fset, lx)))
+					out += fmt.Sprintf("%slet %s := %s.set %s %s\n", p, leanName(id.Name), leanName(id.Name), t.natOf(lx.Index), tmps[i])
+				case *ast.Ident:
+					if lx.Name != "_" {
+						out += fmt.Sprintf("%slet %s := %s\n", p, leanName(lx.Name), tmps[i])
+					}
+				default:
+					return p + t.fail(x, "tuple assignment target") + "\n"
+				}
+			}
+			return out
+		}
 	}
 	var names []string
 	for _, l := range x.Lhs {
@@ -1596,6 +1674,9 @@ func main() {
 			}
 		}
 		fmt.Fprintf(&hdr, "-/\nset_option linter.unusedVariables false\nnamespace %s\n\n", m.Lean)
+		if t.useCopy {
+			hdr.WriteString("/-- Go's `copy(dst[a:], src)` on byte slices: min(len(src), len(dst)-a) bytes are overwritten from offset a -/\ndef goCopyAt (dst : List (BitVec 8)) (a : Nat) (src : List (BitVec 8)) : List (BitVec 8) :=\n  let n := min src.length (dst.length - a)\n  dst.take a ++ src.take n ++ dst.drop (a + n)\n\n")
+		}
 		outp := filepath.Join(outdir, strings.ReplaceAll(m.Lean, ".", "/")+".lean")
 		content := hdr.String() + body.String() + "end " + m.Lean + "\n"
 		if len(t.errs) > 0 {
